@@ -606,7 +606,7 @@ class MolGrid(Grid):
             f_ind = self._indices[index + 1]
             return LocalGrid(
                 self.points[s_ind:f_ind],
-                self.weights[s_ind:f_ind],
+                self._atweights[s_ind:f_ind],
                 self._atcoords[index],
             )
         return self._atgrids[index]
